@@ -350,6 +350,10 @@ func (gen *filterGen) Tuple(t *types.Tuple, variadic bool) string {
 // Type returns the filter part for a single type.
 func (gen *filterGen) Type(typ types.Type) string {
 	switch t := typ.(type) {
+	case *types.Basic:
+		// byte and rune are distinct *types.Basic from uint8 and int32 but
+		// denote identical types, so name them all by their kind.
+		return types.Typ[t.Kind()].Name()
 	case *types.Array:
 		return `[` + strconv.FormatInt(t.Len(), 10) + `]` + gen.Type(t.Elem())
 	case *types.Chan:
